@@ -49,6 +49,7 @@ inductive Act
   | counts (r : Nat)
   | wcounts (w : Nat)
   | setPanic (q : Nat)
+  | setShallow (q : Nat)        -- make the value's `Clone` shallow (copies no handle); see `makeMut`
   | upgradeField (k : Nat)       -- only inside a destructor: upgrade own Weak field `k`
   | cloneField (k : Nat)         -- only inside a destructor: clone own strong field `k`
   deriving DecidableEq, Repr, Inhabited
@@ -60,6 +61,9 @@ structure Val where
   weaks : List Nat
   script : List Act
   panics : Bool
+  /-- `Clone for Node` copies the payload but none of the handles (so `make_mut`'s clone branch
+  really gives up the old allocation's place in its group) -/
+  shallow : Bool := false
   deriving DecidableEq, Repr, Inhabited
 
 /-- one `RcBox` allocation -/
